@@ -17,6 +17,16 @@ add("C12", "model_checking",
     "(the 'randomly beyond five' clause is sampling and outside this technique).",
     "bounded exhaustive enumeration of input structures against a reference model (explicit-state, in-process)", "2/C12")
 
+add("C07", "model_checking",
+    "State machine over calendar days: state = environment(d), transition d -> d+1. Every visited day (quick: every change date +-1, "
+    "month starts, leap days, year ends; thorough: every day 1980-01-01 .. last key + 1 year) the real set_up_policy_environment(d) is "
+    "compared leaf by leaf with an independent reference resolver (deviations, vorjahr/jahresanfang look-ups, rounding specs, piecewise "
+    "schedules in exact Fractions, date-derived values) and with the AST-scanned rule registry (exactly one implementation per name, "
+    "inclusive bounds); consecutive days satisfy the stutter invariant; overlap rejection is checked on all 225 interval pairs.",
+    "Trusted: mc/ref/params.py and mc/ref/registry.py (written from the parameter-file conventions, no shared code); YAML parse cache "
+    "(cross-checked against uncached runs each run).",
+    "explicit-state exploration of the day-indexed state machine with per-state conformance to a reference model", "2/C07")
+
 NOT_APPLICABLE = []
 
 
